@@ -458,7 +458,11 @@ pub fn get_file_change_description_from_file_paths(
             } else {
                 Cow::from(file)
             };
-            match (config.hyperlinks, utils::path::absolute_path(file, config)) {
+            // The link goes to the file; the marker of a binary file section is not part of its path.
+            let path = file
+                .strip_suffix(super::diff_header_misc::BINARY_FILE_SUFFIX)
+                .unwrap_or(file);
+            match (config.hyperlinks, utils::path::absolute_path(path, config)) {
                 (true, Some(absolute_path)) => features::hyperlinks::format_osc8_file_hyperlink(
                     absolute_path,
                     None,
